@@ -404,6 +404,73 @@ fn run(ctx: &mut Ctx) {
             emit(ctx, 5, facts, false);
         }
     }
+    // a diamond AAA-BBB-DDD / AAA-CCC-DDD whose edges are quoted once (day 10 or day 20), or twice: day 10 and day 20 with the
+    // SAME rate (a repeated quote is still the most recent quote: its age counts from day 20), or with different rates.
+    // 4^4 graphs x {all from the database, all from the ledger}: the chain whose quotes are less stale must win
+    {
+        const EDGES: [(usize, usize, u32); 4] = [(0, 1, 2), (1, 3, 3), (0, 2, 5), (2, 3, 7)];
+        for src in [Src::Db, Src::Cost] {
+            for code in 0..256u32 {
+                let mut facts: Vec<Fact> = vec![];
+                for (i, (x, y, rate)) in EDGES.iter().enumerate() {
+                    match (code >> (2 * i)) & 3 {
+                        0 => facts.push(Fact { date: 10, x: *x, y: *y, rate: *rate, src }),
+                        1 => facts.push(Fact { date: 20, x: *x, y: *y, rate: *rate, src }),
+                        2 => {
+                            facts.push(Fact { date: 10, x: *x, y: *y, rate: *rate, src });
+                            facts.push(Fact { date: 20, x: *x, y: *y, rate: *rate, src });
+                        }
+                        _ => {
+                            facts.push(Fact { date: 10, x: *x, y: *y, rate: *rate + 10, src });
+                            facts.push(Fact { date: 20, x: *x, y: *y, rate: *rate, src });
+                        }
+                    }
+                }
+                emit(ctx, 4, facts, false);
+            }
+        }
+    }
+    // effective dates: a transaction `2024/01/20=2024/01/05` or `=2024/01/25` states its price on its DATE (day 20); the
+    // secondary date after `=` moves nothing. Every single fact and every pair of the 3-commodity alphabet with at least one
+    // ledger fact of day 20, with both secondary dates put on all day-20 transactions
+    {
+        for eff in ["2024/01/05", "2024/01/25"] {
+            let mut sets: Vec<Vec<Fact>> = vec![];
+            for i in 0..a3.len() {
+                sets.push(vec![a3[i]]);
+                for j in i + 1..a3.len() {
+                    sets.push(vec![a3[i], a3[j]]);
+                }
+            }
+            for facts in sets {
+                if !facts.iter().any(|f| f.src != Src::Db && f.date == 20) {
+                    continue;
+                }
+                if !ctx.next_is_mine() {
+                    ctx.skip_cases(1);
+                    continue;
+                }
+                let (text, db) = render(3, &facts);
+                let text = text.replace("2024/01/20 f\n", &format!("2024/01/20={} f\n", eff));
+                let mut conv = 0;
+                let mut must = 0;
+                ctx.case(
+                    || format!("{}-- price db --\n{}", text, db),
+                    || {
+                        let (o, c, m) = judge(3, &facts, &text, &db, &dbpath);
+                        conv = c;
+                        must = m;
+                        match o.verdict {
+                            crate::fw::Verdict::Pass => Outcome::pass(format!("effective-date/{}", o.class)),
+                            _ => o,
+                        }
+                    },
+                );
+                ctx.count("transitions", conv);
+                ctx.count("validated", must);
+            }
+        }
+    }
     // a price of exactly zero is a price: `P d AAA 0 BBB` makes 1 AAA worth 0 BBB from d on (the reverse direction has no
     // finite rate and is not judged). With and without an older non-zero price for the pair from the ledger or the database.
     {
